@@ -60,6 +60,11 @@ structure Env (J S C : Type) where
   sub : Nat → Text → Res Text
   validate : J → Res S
   coerce : J → Res (J × List C)
+  /-- `self.JSON_EXTRACTION_PATTERNS` as the instance sees it (indices into the universe of known patterns;
+      instances and subclasses may re-assign the public table) -/
+  patterns : List Nat
+  /-- `self.JSON_REPAIRS` as the instance sees it -/
+  repairs : List Nat
 
 /-- One library call together with the result it produced. -/
 inductive Call (J S C : Type) where
@@ -116,7 +121,7 @@ def cCoerce (env : Env J S C) (d : J) : W (Call J S C) (J × List C) :=
 
 /-! ### the tables (indices into `JSON_EXTRACTION_PATTERNS` and `JSON_REPAIRS`) -/
 
-/-- markdown_json_block, markdown_code_block, xml_json_tag, bare_json_object, bare_json_array -/
+/-- the shipped table: markdown_json_block, markdown_code_block, xml_json_tag, bare_json_object, bare_json_array -/
 def patternIds : List Nat := [0, 1, 2, 3, 4]
 
 /-- the ten entries of `JSON_REPAIRS`, in table order -/
@@ -230,13 +235,13 @@ def scanPatterns (env : Env J S C) (raw : Text) : List Nat → W (Call J S C) (O
 
 /-- `_fold_extraction` -/
 def foldExtraction (env : Env J S C) (raw : Text) : W (Call J S C) (P S) := do
-  match ← scanPatterns env raw patternIds with
+  match ← scanPatterns env raw env.patterns with
   | some (_, s) => pure ⟨true, some s, none⟩
   | none => pure ⟨false, none, some .noValidJson⟩
 
 /-- `_fold_extraction_enhanced` -/
 def foldExtractionX (env : Env J S C) (raw : Text) : W (Call J S C) (X S C) := do
-  match ← scanPatterns env raw patternIds with
+  match ← scanPatterns env raw env.patterns with
   | some (i, s) => pure ⟨true, some s, none, cExtraction, [.extractedVia i], some .extraction⟩
   | none => pure ⟨false, none, some .noValidJson, cDefault, [], none⟩
 
@@ -269,7 +274,7 @@ def scanLoad (env : Env J S C) (raw : Text) : List Nat → W (Call J S C) (Optio
 /-- `_extract_json`: first pattern match that parses, else the whole stripped text, else `None`.
     (`some d` with `env.isNone d` is the JSON literal `null`, which the caller also treats as `None`.) -/
 def extractJson (env : Env J S C) (raw : Text) : W (Call J S C) (Option J) := do
-  match ← scanLoad env raw patternIds with
+  match ← scanLoad env raw env.patterns with
   | some d => pure (some d)
   | none => loadOne env raw
 
@@ -327,7 +332,7 @@ def decodeOrValidationMsg (e : Exc) : Option ErrTag :=
 
 /-- `_fold_repair` -/
 def foldRepair (env : Env J S C) (raw : Text) : W (Call J S C) (P S) := do
-  let repaired ← repairChain env repairIds (strip raw)
+  let repaired ← repairChain env env.repairs (strip raw)
   W.tryCatch
     (do let d ← cLoads env repaired
         let s ← cValidate env d
@@ -336,7 +341,7 @@ def foldRepair (env : Env J S C) (raw : Text) : W (Call J S C) (P S) := do
 
 /-- `_fold_repair_enhanced` -/
 def foldRepairX (env : Env J S C) (raw : Text) : W (Call J S C) (X S C) := do
-  let rn ← repairChainX env repairIds (strip raw) []
+  let rn ← repairChainX env env.repairs (strip raw) []
   W.tryCatch
     (do let d ← cLoads env rn.1
         let s ← cValidate env d
@@ -448,6 +453,7 @@ def loopX (env : Env J S C) (raw : Text) : List Strategy → Stats → List AttR
 inductive FinalErr where
   | allFailed (n : Nat)             -- "All n folding strategies failed…"
   | attempt (t : ErrTag)            -- the trace carried by a strategy's own result
+  | mapFailed (e : Exc)             -- `str(e)` of the exception a mapped function raised (FoldedProtein.map)
   deriving DecidableEq, Repr
 
 /-- `FoldedProtein` returned by `fold`. -/
@@ -456,6 +462,21 @@ structure Folded (S : Type) where
   struct : Option S
   raw : Text
   err : Option FinalErr
+
+/-- `FoldedProtein.map` (core/types.py): apply a user function to the structure of a valid report; a raising function
+    turns the report invalid, without structure, with the exception text as error trace; an invalid report (or one
+    without structure) is returned as it is and the function is not called.  (`folding_attempts` is carried along
+    unchanged and not modelled; the function is an arbitrary one that returns a structure or raises.) -/
+def Folded.map {S : Type} (f : S → Res S) (p : Folded S) : Folded S :=
+  match p.valid, p.struct with
+  | true, some s =>
+    match f s with
+    | .ok s' => ⟨true, some s', p.raw, none⟩
+    | .raise e => ⟨false, none, p.raw, some (.mapFailed e)⟩
+  | _, _ => p
+
+/-- does `map` call the function on this report? -/
+def Folded.mapCalls {S : Type} (p : Folded S) : Bool := p.valid && p.struct.isSome
 
 /-- `EnhancedFoldedProtein` returned by `fold_enhanced`. -/
 structure FoldedX (S C : Type) where
